@@ -41,7 +41,11 @@ class BaseCheck:
         try:
             for case in list(cases) + list(self.search_cases()):
                 gen.use(case)            # meshes are handed to the implementation in the presentation the case records
-                v = self.oracle(case)
+                if isinstance(case, dict) and case.get("kind") == "reuse":
+                    from . import reuse
+                    v = reuse.oracle(case)
+                else:
+                    v = self.oracle(case)
                 if v is not None and not is_known(v):
                     return v
         finally:
@@ -63,7 +67,11 @@ class BaseCheck:
             from . import gen
             gen.use(rp["input"])
             try:
-                v = self.oracle(rp["input"])
+                if isinstance(rp["input"], dict) and rp["input"].get("kind") == "reuse":
+                    from . import reuse
+                    v = reuse.oracle(rp["input"])
+                else:
+                    v = self.oracle(rp["input"])
             finally:
                 gen.use(None)
             return None if v is None else "%s: %s" % (v.clause, v.what)
